@@ -180,3 +180,72 @@ func VH_C17_STLSchedules() {
 	}
 	vreach("end")
 }
+
+// vheadReader delivers the first bytes in reads of the given sizes (0 = an empty read), then everything else in one
+// read or one byte at a time.
+type vheadReader struct {
+	data   []byte
+	sizes  []int
+	pos    int
+	call   int
+	single bool
+}
+
+func (r *vheadReader) Read(p []byte) (int, error) {
+	if r.pos >= len(r.data) {
+		return 0, io.EOF
+	}
+	n := len(r.data) - r.pos
+	if r.call < len(r.sizes) {
+		n = r.sizes[r.call]
+	} else if r.single {
+		n = 1
+	}
+	r.call++
+	if n > len(p) {
+		n = len(p)
+	}
+	if n > len(r.data)-r.pos {
+		n = len(r.data) - r.pos
+	}
+	copy(p, r.data[r.pos:r.pos+n])
+	r.pos += n
+	return n, nil
+}
+
+// C17: the text readers as a whole (not only the line scanner): a document that begins with a byte-order mark, read
+// in one go, or with its first bytes arriving in reads of 0..4 bytes (the mark split anywhere, an empty first read)
+// and the rest at once or byte by byte, gives the same cues and metadata.
+func VH_C17_TextReaderHead() {
+	format := choose(3)
+	x := string([]byte{nondetByteIn("0123456789")})
+	var doc []byte
+	switch format {
+	case 0:
+		doc = []byte("\xef\xbb\xbf1\n00:00:0" + x + ",000 --> 00:00:1" + x + ",000\nHello\n\n2\n00:00:20,000 --> 00:00:21,000\nWorld\n")
+	case 1:
+		doc = []byte("\xef\xbb\xbfWEBVTT\n\n1\n00:00:0" + x + ".000 --> 00:00:1" + x + ".000\nHello\n")
+	default:
+		doc = []byte("\xef\xbb\xbf[Script Info]\nTitle: t\n\n[V4 Styles]\nFormat: Name, Fontname\nStyle: Default,Arial\n\n[Events]\nFormat: Marked, Start, End, Style, Text\nDialogue: Marked=0,0:00:0" + x + ".00,0:00:1" + x + ".00,Default,Hello\n")
+	}
+	read := func(r io.Reader) (*Subtitles, error) {
+		switch format {
+		case 0:
+			return ReadFromSRT(r)
+		case 1:
+			return ReadFromWebVTT(r)
+		}
+		return ReadFromSSA(r)
+	}
+	want, e1 := read(bytes.NewReader(doc))
+	vassert(e1 == nil && len(want.Items) >= 1, "C17 head: one-read parse")
+	vreach("oneshot")
+	sizes := [][]int{{1}, {2}, {3}, {4}, {0, 1}, {1, 1, 1}, {2, 0, 1}, {0, 3}}[choose(8)]
+	got, e2 := read(&vheadReader{data: doc, sizes: sizes, single: choose(2) == 1})
+	vassert(e2 == nil, "C17 head: no error when the first bytes arrive in short reads")
+	if e2 != nil {
+		return
+	}
+	vassert(vdeepequal(want, got), "C17 head: same cues and metadata however the first bytes are delivered")
+	vreach("end")
+}
